@@ -212,17 +212,30 @@ def _run(chk, tier, model_ok):
         for (case, cmds, answers), (head, mans) in zip([pc for pc in per_case if pc[0].sexpr], results):
             parts = dict(p.split("=") for p in head.split()[2:]) if head.startswith("ok ") else {}
             nstructs = int(head.split()[1]) if head.startswith("ok ") else -1
-            wf_explained = parts.get("wf") == "0" and bool(dyn_sized_fixed_fields(case.prepared))
+            # C01_moduleWF_iff: wf = csm ∧ dyn.  csm (constant-size field of a fixed-size type has the
+            # type's size) is enforced by the front end: required of every accepted module.  dyn = 0 is
+            # accepted only where the independent IR walk finds the open finding's construct.
+            wf_explained = (parts.get("wf") == "0" and parts.get("csm") == "1" and parts.get("dyn") == "0"
+                            and bool(dyn_sized_fixed_fields(case.prepared)))
             if wf_explained:
                 # outside the theorem's hypothesis for the reason the counterexample theorem names
                 stats["modules_outside_moduleWF (dynamic-size fixed type)"] += 1
+            if head.startswith("ok "):
+                stats["ir_moduleConstMatch_checked"] += 1
+                # structures for which SizeCovers is a theorem (C01_sizeCovers_of_closed_folds), not a hypothesis
+                stats["structs_total"] += max(nstructs, 0)
+                stats["structs_sizeCovers_discharged (structClosedFolds)"] += int(parts.get("cov", 0))
+                # structures satisfying every decidable hypothesis of the refinement theorems (Model/ViewFrag.lean)
+                stats["structs_in_refinement_fragment (structInFragment)"] += int(parts.get("ref", 0))
+                stats["modules_in_refinement_fragment (moduleInFragment)"] += int(parts.get("refm", 0))
             if not head.startswith("ok ") or (parts.get("wf") != "1" and not wf_explained) \
+                    or parts.get("csm") != "1" \
                     or int(parts.get("synth", -1)) != nstructs or int(parts.get("fuel", -1)) != nstructs:
                 stats["ir_precondition_failures"] += 1
                 chk.violation("correspondence", {
                     "module": case.text, "case": case.name, "model": head,
                     "theorem_or_correspondence": "real IR does not satisfy the model's preconditions "
-                    "(moduleWF / sizeIsSynth / fuelOK) — hypotheses of C01_prefix_monotone_partial, "
+                    "(moduleWF = moduleConstMatch ∧ moduleNoDynFixed / sizeIsSynth / fuelOK) — hypotheses of C01_prefix_monotone_partial, "
                     "C01_size_is_max_end"}, found_input=False)
                 continue
             for cmd, real, mod in zip(cmds, answers, mans):
